@@ -492,7 +492,11 @@ def r7_stale_handle(rule, root=None):
                         st_ = A.unparse(scr).replace(" ", "")
                         by_ref = st_.startswith("&mutself.drag_start") or st_ in ("self.drag_start.as_mut()",) or bool(names[hname].get("ref") and names[hname].get("mut"))
                         in_place = in_place or by_ref
-            if calls and in_place:
+            zooms = [c for c in A.find(fn["body"], "MethodCall") if c["method"] == "zoom" and str(txt(c["recv"])) == "self.view"]
+            before = calls and zooms and min((c.get("ln", 0), c.get("c", 0)) for c in calls) < min((z.get("ln", 0), z.get("c", 0)) for z in zooms)
+            if calls and in_place and before:
+                rule.bad("%s|zoom|rebase-before-zoom" % ty, "%s::zoom refreshes the pan handle *before* `self.view.zoom(..)` changes the scale: the handle is re-anchored to the pre-zoom matrix (a no-op) and the next drag step uses the stale scale" % ty, A.where(fn, calls[0]))
+            elif calls and in_place:
                 rule.ok("%s::zoom refreshes the stored pan handle after changing the scale" % ty, file=GUI, line=fn["ln"])
             elif calls:
                 rule.bad("%s|zoom|rebases-a-copy" % ty, "%s::zoom rebases a handle bound by value from `self.drag_start`: the handle is Copy, so the stored one keeps the pre-zoom matrix and the grabbed point slides away on the next drag step" % ty, A.where(fn, calls[0]))
